@@ -318,7 +318,7 @@ class ConvexPolygon(GeoBody):
         return hash(
             (
                 "ConvexPolygon",
-                round(self._get_point_hash_sum(), SIG_FIGURES),
+                round(self._get_point_hash_sum(), get_sig_figures()),
                 hash(self.plane) + hash(-self.plane),
                 hash(self.plane) * hash(-self.plane),
             )
@@ -336,11 +336,11 @@ class ConvexPolygon(GeoBody):
         return hash(
             (
                 "ConvexPolygon",
-                round(self._get_point_hash_sum(), SIG_FIGURES - 5),
+                round(self._get_point_hash_sum(), get_sig_figures() - 5),
                 # the hash of a Plane ignores the sign of the normal
-                round(self.plane.n[0], SIG_FIGURES),
-                round(self.plane.n[1], SIG_FIGURES),
-                round(self.plane.n[2], SIG_FIGURES),
+                round(self.plane.n[0], get_sig_figures()),
+                round(self.plane.n[1], get_sig_figures()),
+                round(self.plane.n[2], get_sig_figures()),
             )
         )
 
